@@ -181,43 +181,15 @@ def r17_6(ctx):
 
 
 def r16_9(ctx):
-    """Each mandatory column reaches the record as it was read: the local that carries it is bound once."""
+    """Each mandatory column reaches the record as it was read: the local that carries it is not bound again to anything
+    that is not that column."""
     repo = ctx.repo
-    from ..core import tail_inlined, unroll_const_loops, delist_unpack, local_defs
-
     schema, extras = gaf_schema(repo, "R16.9")
-    pf0 = repo.func("gaftools.gaf", "GAF.parse_gaf_line", "R16.9")
-    pf = tail_inlined(repo, pf0)
-    ret = None
-    for n in walk_own(pf.node):
-        if isinstance(n, ast.Return) and isinstance(n.value, ast.Call):
-            ctor = repo.resolve_call(pf, n.value)
-            if ctor is not None and ctor.name == "__init__":
-                ret = (n.value, ctor)
-    if ret is None:
-        raise AnalysisError("R16.9", pf.where(), "parser does not return a constructed record")
-    call, ctor = ret
-    bound = repo.bound_args(ctor, call) if hasattr(repo, "bound_args") else {}
-    defs = local_defs(pf.node)
-    fv = extras["fields_var"]
-    n = 0
-    for par, a in (bound or {}).items():
-        if not isinstance(a, ast.Name) or a.id not in defs:
-            continue
-        ds = [d for d in defs[a.id]]
-        reads = [d for d in ds if d is not None and any(isinstance(x, ast.Subscript) and isinstance(x.value, ast.Name) and x.value.id == fv for x in ast.walk(d))]
-        if not reads:
-            continue  # not a column (tags, flags)
-        n += 1
-        others = [d for d in ds if d not in reads]
-        if others:
-            o = others[0]
-            ctx.violated("R16.9", pf.where(), f"column variable `{a.id}` is rebound to `{norm(o) if o is not None else '?'}` after it was read from the line: the record no longer carries the value of the file", key_of(pf, f"column-rebound:{a.id}:{norm(o) if o is not None else '?'}"))
-        elif len(reads) > 1 and len({norm(r) for r in reads}) > 1:
-            raise AnalysisError("R16.9", pf.where(), f"column variable `{a.id}` is read from the line in {len(reads)} different ways")
-    ctx.require_count("R16.9", n, 10, pf.where(), "record arguments read from a column of the line")
-    if not any(i.rule == "R16.9" and i.verdict == "violated" for i in ctx.instances):
-        ctx.holds("R16.9", pf.where(), f"each of the {n} column variables handed to the record is bound once, from its column")
+    pf = extras["parser_nf"]
+    for var, vals in sorted(extras["rebound"].items()):
+        ctx.violated("R16.9", pf.where(), f"column variable `{var}` is bound again to `{vals[0][:60]}` after it was read from the line: the record no longer carries the value of the file", key_of(pf, f"column-rebound:{var}:{vals[0][:40]}"))
+    if not extras["rebound"]:
+        ctx.holds("R16.9", pf.where(), f"each of the {extras['n_col_vars']} column variables handed to the record is bound only from its column")
 
 
 # ---------------------------------------------------------------------------------------------
